@@ -19,7 +19,7 @@ AsDiag(o) == Diag(o.dom, o.cod, o.boxes, o.offs)
 Pre(t, k) == IF t.calls[k].p = 0 THEN t.d ELSE AsDiag(t.calls[t.calls[k].p].res)
 Refusable == {"gen", "ctor", "retype", "then", "thenSelf", "index"}
 Algebra   == {"gen", "ctor", "retype", "then", "thenSelf", "tensorR", "tensorL", "tensorSelf",
-              "dagger", "slice", "index"}
+              "dagger", "slice", "rslice", "index"}
 
 \* the specification's answer to a call; "ctor" is the constructor called with the
 \* boxes of pre plus one more box at offset i (same meaning as "gen")
